@@ -377,6 +377,11 @@ def gen_lop(rng, n, api=True):
         args = [gen_val(rng, 2, api, nodict2=True)]
     elif m == "交换":
         args = [gen_index(rng, n, api), gen_index(rng, n, api)]
+        if rng.random() < 0.25:
+            # a fractional position between 0 and 1 (no item there) beside a valid one
+            args[rng.randrange(2)] = H(0)
+            if n > 0 and rng.random() < 0.7:
+                args[1 - args.index(H(0))] = N(rng.randrange(1, n + 1))
     else:
         args = [gen_val(rng, 1, api)]
     # occasionally break the arity / the types (parameter validation)
@@ -498,6 +503,8 @@ def list_alphabet():
         {"op": "meth", "m": "新增", "args": [N(9), N(-1)]},
         {"op": "meth", "m": "新增", "args": [N(9), N(-3)]},
         {"op": "meth", "m": "交换", "args": [N(1), N(2)]},
+        {"op": "meth", "m": "交换", "args": [H(0), N(2)]},      # position 0.5 lies before the first item: index error, nothing moves
+        {"op": "meth", "m": "交换", "args": [N(2), H(1)]},      # position 1.5 is position 1
         {"op": "meth", "m": "合并", "args": [L([N(4), N(5)])]},
         {"op": "rev"},
         {"op": "iset", "i": N(1), "v": N(5)},
